@@ -143,6 +143,32 @@ def run(ctx):
             ctx.ob('ADMIT-GATE', 'try_consume:tokens-write#%d' % n, False, tc.where(th.get('ln')),
                    'tokens is written with %s: neither the time-earned refill, nor the cap at burst, nor the consumption of one token — '
                    'budget appears that was not earned' % (e.brief(80) if e is not None else 'a mutable borrow handed out'))
+    # a credit of time-earned tokens is paired with the advance of the clock it was measured from: "a denied attempt never
+    # increases any budget" — if the refill is computed from `now - self.<clock>` and written, but the clock is advanced on the
+    # admitted path only, every denied call credits the same interval again.
+    nclock = 0
+    for b, bi, k, th in writes_tok:
+        if k != 'assign':
+            continue
+        e = F.Expr.of_rvalue(b, th['r'], 30)
+        for x in e.walk():
+            if x.k == 'call' and re.search(r'Instant::(duration_since|saturating_duration_since|checked_duration_since)$', x.a) and len(x.b) == 2:
+                clk = x.b[1].strip()
+                m = re.search(r'\.(\w+)$', clk.show())
+                if not m or clk.k != 'field':
+                    continue
+                cf = m.group(1)
+                adv = [wb for (wb, wk, wt) in L.body_field_writes(tc, BUCKET, cf) if wk == 'assign']
+                ok_c, wit = L.must_pass(tc, [bi], adv, tc.return_blocks())
+                # an advance that dominates the credit (clock read into a local first) is the other accepted order
+                if not ok_c and any(tc.dominates(a, bi) for a in adv):
+                    ok_c = True
+                nclock += 1
+                ctx.ob('ADMIT-GATE', 'try_consume:refill-advances-clock:%s' % cf, ok_c, tc.where(th.get('ln')),
+                       'the tokens credited for the time since self.%s are written together with an advance of self.%s on every path to a return: %s%s' % (
+                           cf, cf, ok_c, '' if ok_c else ' — a return (block %s) is reached with the credit kept and the clock not advanced: each denied attempt re-credits the same interval' % wit))
+    if not nclock:
+        ctx.ob('ADMIT-GATE', 'try_consume:refill-advances-clock', False, tc.where(), 'no time-earned refill measured from a clock field of the bucket found (anchor)')
     # the bucket replaced as a whole through `*self = ..`
     whole = []
     for bi, si, st_ in tc.stmts():
